@@ -2,7 +2,7 @@
 from celmodel.values import I, B, S, top_outcome, is_crash
 from celmodel.refeval import run_once, Unsupported
 from celmodel.expr import render_min, render_full
-from .common import (exec_case, rng_for, same_outcome, mismatch_kind, fmt_outcome, crash_sig, chunks)
+from .common import (exec_case, rng_for, same_outcome, mismatch_kind, fmt_outcome, crash_sig, chunks, norm_log)
 
 RULE = ("nestings of &&, || and ?: whose operands are boolean constants, call-logging host functions "
         "t(i, bool) and error raisers (division by zero, overflow, missing key, undeclared name, failing "
